@@ -441,6 +441,9 @@ func main() {
 				mu.Lock()
 				if wo.errLine != "" {
 					mu.Unlock()
+					if strings.Contains(wo.errLine, "watchdog") {
+						trouble("worker: %s\n%s", wo.errLine, strings.Join(tailLines(wo.stderr, 60), "\n"))
+					}
 					trouble("worker: %s", wo.errLine)
 				}
 				logs = append(logs, wo.logs...)
@@ -541,7 +544,12 @@ func main() {
 				}
 				return false, r, Violation{}
 			}
+			// A change that breaks the code's own synchronisation makes the code under test race for real:
+			// the same tape may then take different courses. Try a few times before giving up.
 			ok, r, v := test(min)
+			for try := 0; !ok && try < 4; try++ {
+				ok, r, v = test(min)
+			}
 			if ok {
 				reproduced = true
 				minRes, minV = r, v
@@ -561,8 +569,21 @@ func main() {
 					min = best
 					// final confirmation in a fresh process
 					srv.stop()
-					if ok, r, v := test(min); ok {
-						minRes, minV = r, v
+					confirmed := false
+					for try := 0; try < 5 && !confirmed; try++ {
+						if ok, r, v := test(min); ok {
+							minRes, minV, confirmed = r, v, true
+						}
+					}
+					if !confirmed {
+						// fall back to the unminimised tape, which did reproduce
+						for try := 0; try < 5 && !confirmed; try++ {
+							if ok, r, v := test(g.first.Tape); ok {
+								min, minRes, minV, confirmed = g.first.Tape, r, v, true
+							}
+						}
+					}
+					if confirmed {
 					} else {
 						jb, _ := json.Marshal(map[string]any{"property": prop, "kind": k, "tape": min})
 						np := filepath.Join(verifDir, "replays", fmt.Sprintf("NONDET-%s-%s.json", prop, sanitize(k)))
@@ -573,14 +594,35 @@ func main() {
 			}
 		}
 		if !reproduced {
-			// a violation that does not replay is harness trouble, never a verdict
-			trouble("run %d of %s reported %s (%s) but replaying its tape does not reproduce it", g.first.Index, prop, k, g.first.V[0].Detail)
+			if k == "crash" && spec.CrashIsViolation && !harnessFrames(g.first.Trace) {
+				// The worker died with a panic raised in the code under test: that observation stands even if
+				// the tape takes another course on replay (code whose own synchronisation is broken races for
+				// real, and no scheduler can pin that down). Reported with the unminimised tape and a note.
+				minRes = &RunResult{Trace: g.first.Trace}
+				minV = g.first.V[0]
+				minV.Detail += " [observed in run " + fmt.Sprint(g.first.Index) + "; 5 replays of its tape took another course: the code under test races]"
+			} else if exit == 1 {
+				fmt.Printf("note: run %d reported %s (%s) but 5 replays of its tape took another course; not reported (another violation of this run batch is)\n", g.first.Index, k, oneLine(g.first.V[0].Detail))
+				continue
+			} else {
+				// a violation that does not replay is harness trouble, never a verdict
+				trouble("run %d of %s reported %s (%s) but replaying its tape does not reproduce it", g.first.Index, prop, k, g.first.V[0].Detail)
+			}
 		}
 		path := filepath.Join(verifDir, "replays", fmt.Sprintf("%s-%s-%d.json", prop, sanitize(k), g.first.Index))
+		var crashReport []string
+		if k == "crash" {
+			// the process died: fetch the decoded trace up to the crash through the trace side file
+			crashReport = minRes.Trace
+			minRes = &RunResult{Trace: traceOfCrash(prop, min)}
+		}
 		rep := map[string]any{
 			"property": prop, "kind": k, "detail": minV.Detail, "verif_seed": int64(seed), "run_index": g.first.Index,
 			"run_seed": g.first.Seed, "tape": min, "original_tape_len": len(g.first.Tape), "shrink_runs": shrinkRuns,
 			"trace": minRes.Trace, "occurrences_in_batch": g.count,
+		}
+		if crashReport != nil {
+			rep["crash_report"] = crashReport
 		}
 		jb, _ := json.MarshalIndent(rep, "", " ")
 		os.WriteFile(path, jb, 0o644)
@@ -629,6 +671,9 @@ func main() {
 			kind := "data-race"
 			if rr.panicMsg != "" {
 				kind = "crash"
+				if strings.HasPrefix(rr.panicMsg, "DEADLOCK") {
+					kind = "deadlock"
+				}
 			}
 			path := filepath.Join(verifDir, "replays", fmt.Sprintf("%s-%s-race-%d.json", prop, kind, rr.index))
 			jb, _ := json.MarshalIndent(map[string]any{"property": prop, "kind": kind, "mode": "race", "verif_seed": int64(seed), "race_index": rr.index, "detail": rr.sig, "report": strings.Split(rr.report, "\n")}, "", " ")
@@ -833,7 +878,19 @@ func runRace(prop string, seed uint64, from uint64, budget float64) raceResult {
 	cmd.Env = append(os.Environ(), "VERIF_JOB="+string(jb), "GORACE=halt_on_error=1 exitcode=66")
 	var outb, errb strings.Builder
 	cmd.Stdout, cmd.Stderr = &outb, &errb
-	err := cmd.Run()
+	if e := cmd.Start(); e != nil {
+		return raceResult{trouble: e.Error()}
+	}
+	waitDone := make(chan error, 1)
+	go func() { waitDone <- cmd.Wait() }()
+	var err error
+	select {
+	case err = <-waitDone:
+	case <-time.After(time.Duration(budget+120) * time.Second):
+		cmd.Process.Kill()
+		<-waitDone
+		return raceResult{trouble: "the free-running tier did not finish within its budget + 120 s"}
+	}
 	res := raceResult{index: -1}
 	for _, l := range strings.Split(outb.String(), "\n") {
 		if strings.HasPrefix(l, "@@BEGIN ") {
@@ -872,4 +929,35 @@ func runRace(prop string, seed uint64, from uint64, budget float64) raceResult {
 		res.trouble = fmt.Sprintf("race worker failed: %v\n%s", err, strings.Join(tailLines(text, 20), "\n"))
 	}
 	return res
+}
+
+// traceOfCrash replays a tape that kills the worker and returns the trace written up to the crash.
+func traceOfCrash(prop string, data []uint32) []string {
+	f, err := os.CreateTemp(filepath.Join(verifDir, "bin"), "trace-*.log")
+	if err != nil {
+		return nil
+	}
+	name := f.Name()
+	f.Close()
+	defer os.Remove(name)
+	jb, _ := json.Marshal(Job{Prop: prop, Mode: "serve"})
+	cmd := exec.Command(workerBin, "-test.run", "^TestWorker$", "-test.timeout", "0")
+	cmd.Env = append(os.Environ(), "VERIF_JOB="+string(jb), "VERIF_TRACE_LOG="+name)
+	b, _ := json.Marshal(data)
+	cmd.Stdin = strings.NewReader(string(b) + "\n")
+	cmd.Run()
+	out, _ := os.ReadFile(name)
+	return tailLines(string(out), 400)
+}
+
+// harnessFrames: the panic was raised by simulator code (verif/sim/...), not by the code under test.
+func harnessFrames(stack []string) bool {
+	for _, l := range stack {
+		t := strings.TrimSpace(l)
+		if strings.HasPrefix(t, "panic(") || strings.HasPrefix(t, "runtime.") || strings.HasPrefix(t, "/") || strings.HasPrefix(t, "goroutine ") || strings.HasPrefix(t, "panic:") || t == "" || strings.HasPrefix(t, "[signal") {
+			continue
+		}
+		return strings.HasPrefix(t, "verif/sim/")
+	}
+	return false
 }
